@@ -39,6 +39,7 @@ VARIANTS: list[Variant] = [
     V("C01-c", "C01", "R2", "src/ramses_tx/transport.py", "        except ValueError as err:  # VE from dt.fromisoformat() or falsey packet\n            _LOGGER.debug(\"%s < PacketInvalid(%s)\", frame, err)\n            return\n", "        except KeyError as err:\n            _LOGGER.debug(\"%s < PacketInvalid(%s)\", frame, err)\n            return\n", "_frame_read no longer fences ValueError (undatable/empty line)"),
     V("C01-d", "C01", "R4", "src/ramses_tx/transport.py", "                lines = self._recv_buffer.split(b\"\\r\\n\")\n                self._recv_buffer = lines[-1]\n", "                lines = self._recv_buffer.split(b\"\\r\\n\")\n                self._recv_buffer = b\"\"\n", "the unterminated tail of a serial read is dropped instead of carried"),
     V("C01-e", "C01", "R2", "src/ramses_tx/protocol.py", "        except exc.PacketInvalid:  # TODO: InvalidMessageError (packet is valid)\n            return\n", "        except exc.PacketPayloadInvalid:\n            return\n", "_pkt_received fences only the payload subclass of PacketInvalid"),
+    V("C01-h", "C01", "R3", "src/ramses_tx/logger.py", "        try:\n            ct = dtm_now().timestamp()\n        except (OverflowError, ValueError, OSError):  # e.g. last pkt dated 0001-01-01\n            return record  # keep the wall-clock time: logging must not raise\n", "        ct = dtm_now().timestamp()\n", "reversal of the F36 fix: the log-record time source raises for a packet dated near datetime.min"),
     # ---- C02
     V("C02-a", "C02", "R1", "src/ramses_tx/frame.py", "if len(self._frame[46:].split(\" \")[0]) != int(self._frame[42:45]) * 2:", "if len(self._frame[47:].split(\" \")[0]) != int(self._frame[42:45]) * 2 - 1:", "payload column off by one in Frame._validate"),
     V("C02-b", "C02", "R2", "src/ramses_tx/transport.py", "self._frame_read(dtm_pkt_line[:26], dtm_pkt_line[27:])", "self._frame_read(dtm_pkt_line[:23], dtm_pkt_line[27:])", "log replayer reads a 23-char timestamp"),
